@@ -35,7 +35,8 @@ func render(s snippet.Snippet) (out string, imports map[string]string, pan any) 
 var tAlphabet = []string{"a", "b", "1", "_", "@", "'", "%", " ", "\n", ".", "é", "{"}
 
 // binding kinds for the name "a"
-var bindKinds = []string{"unbound", "nil-ident", "empty-block", "block", "nested-template", "placeholder-looking"}
+var bindKinds = []string{"unbound", "nil-ident", "empty-block", "block", "nested-template", "placeholder-looking",
+	"no-arguments-at-all", "only-an-empty-Args-map", "only-a-nil-TArg"}
 
 func bindingFor(kind int) (s snippet.Snippet, bound bool, text string) {
 	switch kind {
@@ -120,10 +121,22 @@ func checkT(c *core.Ctx, format string, kind int) {
 	c.Trans(1)
 	bound := map[string]string{"b": "B!", "a1": "<a1>"}
 	args := []snippet.TArg{snippet.Arg("b", snippet.Block("B!")), snippet.Args{"a1": snippet.Block("<a1>")}}
-	sa, ok, text := bindingFor(kind)
-	if ok {
-		bound["a"] = text
-		args = append(args, snippet.Arg("a", sa))
+	ok := false
+	switch kind {
+	case 6:
+		bound, args = map[string]string{}, nil
+	case 7:
+		bound, args = map[string]string{}, []snippet.TArg{snippet.Args{}}
+	case 8:
+		bound, args = map[string]string{}, []snippet.TArg{nil}
+	default:
+		var sa snippet.Snippet
+		var text string
+		sa, ok, text = bindingFor(kind)
+		if ok {
+			bound["a"] = text
+			args = append(args, snippet.Arg("a", sa))
+		}
 	}
 	nilBound = map[string]bool{"a": ok && (kind == 1 || kind == 2)}
 	want, wantPanic := refT(format, bound, false, false)
@@ -530,7 +543,7 @@ func replay(c *core.Ctx, raw json.RawMessage) {
 func init() {
 	core.Register(&core.Prop{
 		ID: "C09", Level: "model_checking", Run: run, Replay: replay,
-		Rule: "T: every format string of <=L symbols over a 12-symbol alphabet (name runes, '@', apostrophe, '%', space, newline, punctuation, non-ASCII) x 6 binding kinds of the name a (unbound, nil, empty, literal, nested template, placeholder-looking text); Sprintf: every format <=L over 8 symbols x every argument list <=2 of 6 argument kinds (incl. empty snippets) with legal verb pairing; Comment over all line lists <=4 of 5 lines; GoDirective over 3 directives x argument lists <=3; Snippets/Fragments over part lists <=3..4 of 7 part kinds. Non-trivial = the format contains a placeholder/verb introducer (or more than one line/part); states = distinct (construct, panic?, introducer count) classes",
+		Rule: "T: every format string of <=L symbols over a 12-symbol alphabet (name runes, '@', apostrophe, '%', space, newline, punctuation, non-ASCII) x 9 binding configurations (the name a unbound / nil / empty / literal / nested template / placeholder-looking text, each next to two other bound names; and no arguments at all / only an empty Args map / only a nil TArg); Sprintf: every format <=L over 8 symbols x every argument list <=2 of 6 argument kinds (incl. empty snippets) with legal verb pairing; Comment over all line lists <=4 of 5 lines; GoDirective over 3 directives x argument lists <=3; Snippets/Fragments over part lists <=3..4 of 7 part kinds. Non-trivial = the format contains a placeholder/verb introducer (or more than one line/part); states = distinct (construct, panic?, introducer count) classes",
 		Assumptions: []string{
 			"formats containing BOM/NUL/invalid UTF-8 are outside the alphabet (text/scanner artefacts, statement silent)",
 			"untyped-nil Snippet interface values as arguments are outside the alphabet",
